@@ -7,7 +7,7 @@ namespace nano::detail
 {
 constexpr uint32_t hash_version()
 {
-    return 0;
+    return 1;
 }
 
 inline uint64_t hash_combine(const uint64_t seed, const uint64_t hash)
@@ -45,6 +45,58 @@ uint64_t hash(const tscalar* data, const tsize size)
         {
             hash = hash_combine(hash, static_cast<uint64_t>(data[i]));
         }
+    }
+    return hash;
+}
+///
+/// \brief bijective 64-bit mixer.
+///
+inline uint64_t hash_mix(uint64_t value)
+{
+    value ^= value >> 30U;
+    value *= 0xbf58476d1ce4e5b9ULL;
+    value ^= value >> 27U;
+    value *= 0x94d049bb133111ebULL;
+    value ^= value >> 31U;
+    return value;
+}
+
+///
+/// \brief checksum of a buffer of scalars (version 1 of the binary tensor format).
+///
+/// NB: every step is a bijection of both the running value and of the element's bits,
+///     so altering exactly one element always changes the checksum (unlike `hash`).
+///
+template <class tscalar, class tsize>
+uint64_t checksum(const tscalar* data, const tsize size)
+{
+    static_assert(sizeof(float) == 4);
+    static_assert(sizeof(double) == 8);
+    static_assert(sizeof(tscalar) <= 8);
+    static_assert(std::is_arithmetic_v<tscalar>);
+
+    uint64_t hash = hash_mix(static_cast<uint64_t>(size));
+    for (tsize i = 0; i < size; ++i)
+    {
+        uint64_t bits = 0U;
+        if constexpr (std::is_floating_point_v<tscalar>)
+        {
+            if constexpr (sizeof(tscalar) == 4)
+            {
+                // NOLINTNEXTLINE(cppcoreguidelines-pro-type-reinterpret-cast)
+                bits = reinterpret_cast<const uint32_t&>(data[i]);
+            }
+            else
+            {
+                // NOLINTNEXTLINE(cppcoreguidelines-pro-type-reinterpret-cast)
+                bits = reinterpret_cast<const uint64_t&>(data[i]);
+            }
+        }
+        else
+        {
+            bits = static_cast<uint64_t>(data[i]);
+        }
+        hash = hash_mix(hash) ^ hash_mix(bits + 0x9e3779b97f4a7c15ULL);
     }
     return hash;
 }
